@@ -1257,7 +1257,7 @@ def guards():
                 tree_ = ast.parse(txt, mode="eval")
                 order_ = {}
                 for n_ in ast.walk(tree_):
-                    if isinstance(n_, ast.Name) and n_.id in lnames:
+                    if isinstance(n_, ast.Name) and (n_.id in lnames or n_.id not in ("self", "np", "math", "abs", "float", "int", "min", "max")):
                         order_.setdefault(n_.id, f"_{len(order_) + 1}")
                         n_.id = order_[n_.id]
                 txt = ast.unparse(tree_)
